@@ -88,8 +88,10 @@ contract(
         " len(result) == 1)",
     ],
     cut_ensures=[
-        # conversion is only ever attempted with an extension enabled
+        # conversion is only ever attempted with an extension enabled ...
         "'html_image' in renderer.md_config.enable_extensions or 'html_admonition' in renderer.md_config.enable_extensions",
+        # ... and on a tree that has at least one top-level element (an empty tree is not "every element convertible")
+        "len(at_return(root)._children) >= 1",
     ],
     raises={},
     modifies=["fresh", "Element._children", "Element._parent"],
